@@ -106,6 +106,7 @@ Proof.
   destruct (split_at 77 junk HJ') as (j & rest & -> & Hj). clear HJ HJ'.
   unfold send_echo6, icmp6_send_packet. destruct c as [hm hip hlla rm rip mtu]. cbn [host_mac a_ip a_mac fst snd] in *.
   unfold is6. rewrite (proj1 H3), (proj1 H4). cbn [Nat.eqb negb orb].
+  replace (nd_message (enc_icmp_echo 128 0 id seq hello)) with false by reflexivity. rewrite orb_false_r.
   destruct (ll_unicast di || ll_multicast di);
   explode_ok hm H1; explode_ok dm H2; explode_ok si H3; explode_ok di H4;
   explode j Hj;
@@ -126,18 +127,12 @@ Proof.
   assert (HJ' : (86 <= length junk)%nat) by (rewrite HJ; unfold EthMaxSize; lia).
   destruct (split_at 86 junk HJ') as (j & rest & -> & Hj). clear HJ HJ'.
   unfold send_ns, icmp6_send_packet. destruct c as [hm hip hlla rm rip mtu]. cbn [host_mac a_ip a_mac fst snd] in *.
-  pose proof (linklocal_agree di H4) as HLL.
+  replace (nd_message (ns_marshal tg hm)) with true by reflexivity. rewrite orb_true_r.
   unfold wf_ns, wf_ns_gen.
-  destruct (ll_unicast di || ll_multicast di);
-  explode_ok hm H1; explode_ok dm H2; explode_ok si H3; explode_ok di H4; explode_ok tg H5;
-  explode j Hj;
-  (eexists; split; [cbn; reflexivity|]); abs_cks;
-  run; eqbs.
-  - apply andb_true_intro; split; [|icmp6_cks].
-    unfold ndp_hop_ok. destruct (ip6_is_linklocal _); reflexivity.
-  - apply andb_true_intro; split; [|icmp6_cks].
-    unfold ndp_hop_ok. destruct (ip6_is_linklocal _) eqn:E; [|reflexivity].
-    specialize (HLL eq_refl). discriminate.
+  explode_ok hm H1; explode_ok dm H2; explode_ok si H3; explode_ok di H4; explode_ok tg H5.
+  explode j Hj.
+  eexists; split; [cbn; reflexivity|]. abs_cks.
+  run; eqbs. icmp6_cks.
 Qed.
 
 (* ---------------------------------------------------------------- *)
@@ -152,16 +147,10 @@ Proof.
   assert (HJ' : (86 <= length junk)%nat) by (rewrite HJ; unfold EthMaxSize; lia).
   destruct (split_at 86 junk HJ') as (j & rest & -> & Hj). clear HJ HJ'.
   unfold send_na, icmp6_send_packet. destruct c as [hm hip hlla rm rip mtu]. cbn [host_mac a_ip a_mac fst snd] in *.
-  pose proof (linklocal_agree di H4) as HLL.
+  replace (nd_message (na_marshal false false true (tm, ti))) with true by reflexivity. rewrite orb_true_r.
   unfold wf_na.
-  destruct (ll_unicast di || ll_multicast di);
-  explode_ok hm H1; explode_ok dm H2; explode_ok si H3; explode_ok di H4; explode_ok tm H5; explode_ok ti H6;
-  explode j Hj;
-  (eexists; split; [cbn; reflexivity|]); abs_cks;
-  run; eqbs.
-  - apply andb_true_intro; split; [|icmp6_cks].
-    unfold ndp_hop_ok. destruct (ip6_is_linklocal _); reflexivity.
-  - apply andb_true_intro; split; [|icmp6_cks].
-    unfold ndp_hop_ok. destruct (ip6_is_linklocal _) eqn:E; [|reflexivity].
-    specialize (HLL eq_refl). discriminate.
+  explode_ok hm H1; explode_ok dm H2; explode_ok si H3; explode_ok di H4; explode_ok tm H5; explode_ok ti H6.
+  explode j Hj.
+  eexists; split; [cbn; reflexivity|]. abs_cks.
+  run; eqbs. icmp6_cks.
 Qed.
